@@ -521,6 +521,9 @@ Proof.
   - eapply inv_cancel; eauto.
   - eapply inv_resume_cancelled; eauto.
   - eapply inv_resume_read_fail; eauto.
+  - inversion H; subst. unfold close. apply inv_crash. exact I.
+  - unfold close_ok in H. destruct (persist_ok s) as [s1|] eqn:P; [|discriminate H].
+    inversion H; subst. apply inv_crash. exact (inv_persist_ok s s1 I P).
 Qed.
 
 Theorem inv_reachable : forall s, reachable s -> Inv s.
@@ -560,6 +563,25 @@ Proof.
   intros s t th R Hg Hr ev Hin E.
   destruct (e3_event_publisher_succeeded s R ev Hin) as (th' & x & G & _ & Hr').
   rewrite E, Hg in G. inversion G; subst th'. rewrite Hr in Hr'. discriminate Hr'.
+Qed.
+
+(* ---- graceful shutdown (AClose / ACloseOk): a close publishes nothing, from ANY state ([close] is [crash],
+   [close_ok] is [persist_ok] then [crash]: neither touches [published]) ------------------------------------------- *)
+Theorem e3_close_publishes_nothing : forall s a s', a = AClose \/ a = ACloseOk -> step s a = Some s' ->
+  published s' = published s.
+Proof.
+  intros s a s' [Ha|Ha] H; subst a; simpl in H.
+  - inversion H; subst s'. reflexivity.
+  - unfold close_ok, persist_ok in H. destruct (v_batch s); [|discriminate H]. inversion H; subst s'. reflexivity.
+Qed.
+
+(* a request that has not finished owns no event (the publisher of every event has finished, [inv_ev_fin]) *)
+Theorem e3_unfinished_no_event : forall s t th, reachable s -> get_thread (threads s) t = Some th ->
+  t_pc th <> PFinished -> forall ev, In ev (published s) -> ev_tid ev <> t.
+Proof.
+  intros s t th R Hg Hp ev Hin E.
+  destruct (e3_event_publisher_succeeded s R ev Hin) as (th' & x & G & Hf & _).
+  rewrite E, Hg in G. inversion G; subst th'. exact (Hp Hf).
 Qed.
 
 (* ---- store read failures: a failed read publishes and writes nothing ------------------------------------------- *)
